@@ -78,6 +78,16 @@ CHECKS = {
     text="Same extraction as C06 for the extrapolated smoothers (tridiagonal, diagonal and inner CSR blocks). At every node of the next coarser grid the right-hand side handed to the solve is exactly the current value and the stored diagonal is the literal 1.0 with no other entry and no neighbour contribution, so the sweep returns x[c]/1.0 unchanged bit for bit; every fine-only row satisfies split completeness against the residual operator with all couplings to coarse nodes on the ortho side; neighbour versions follow the colour order; give == take == sequential.",
     note="Trusted: as C06. Not decided: residual exactly zero on the last colour (arithmetic of the solves).",
     ref="DESIGN.md section 4 / C07"),
+ "C11": dict(
+    level="other", technique="static analysis: effect analysis of every OpenMP region (index-skeleton interpretation from source, barrier-group happens-before, all iteration pairs unordered) + whole-library region census",
+    text="Every function with a parallel region the library can reach (residual give/take, both smoothers and both extrapolated smoothers: matrix build and sweep, direct-solver assembly give/take, both LevelCache constructors, the nine transfer functions, rhs build/discretisation, extrapolated residual, exact-error loop, vector kernels, Vector copies) is interpreted from source on a family of grid shapes covering the circle-count residues mod 2,3,4, ntheta residues mod 3 and 4 and the minimal sizes; every array-element and solver-object access is logged with its barrier group and unit of work. A pair of accesses to one element from different units of one group with at least one write is reported as a race; because all iterations are taken as mutually unordered and nowait merges groups, silence holds for every thread count >= 2 and every schedule. Shared scalars written in a region need a single writer or a reduction clause. A census over all library units fails the check if any reachable region was not interpreted.",
+    note="Trusted: clang's OpenMP parsing, gmgir lowering, own interpreter, OpenMP 4.5 barrier semantics as modelled, line-solver footprint summary, the shape family as cut-off. `if` clauses are taken as true. The two task-based smoother variants and CulhamGeometry::my_sum are unreachable (verified on each run: no caller); uninstantiated templates are outside the build.",
+    ref="DESIGN.md section 4 / C11, 3.3"),
+ "C12": dict(
+    level="other", technique="static analysis: one-writer-per-element-per-barrier-group rule on the effect logs + structural taint rules on OpenMP clauses and reduction results",
+    text="Decides schedule-independence of every vector output: from the same effect logs as C11, each element has at most one writing unit of work per barrier group and groups are ordered by program text, so the sequence of floating-point updates an element receives is a function of the code path only; no dynamic/guided/runtime schedule, atomic, critical section or thread id occurs; floating-point reductions are confined to the scalar kernels and their results are stored in scalars only (stop test). The element-wise kernels equal their definition on exact tables. The size of the re-association difference of the scalar reductions across thread counts, and rounding, are numerical and not decided.",
+    note="Trusted: as C11. Not decided: numerical closeness across thread counts; kernels above/below the 10 000 threshold differ only in the `if` clause, which does not change the element-wise result.",
+    ref="DESIGN.md section 4 / C12"),
 }
 NA = {
  "C02": "order of accuracy is a limit statement about numerical error under refinement; no clause is visible in the shape of the code (its code-shaped preconditions are checked under C03/C10/C19)",
